@@ -136,11 +136,12 @@ func checkC01(c *chk.Ctx) {
 		if cc.Route != "default" {
 			msg.Fields = append(msg.Fields,
 				&abs.Field{Name: "p", Num: 1, Kind: cc.Kind, Card: "one", Rules: abs.NoRules()},
-				&abs.Field{Name: "q", Num: 2, Kind: cc.Kind, Card: "one", Rules: abs.NoRules(), Ann: abs.Ann{Query: true}},
+				&abs.Field{Name: "q", Num: 2, Kind: cc.Kind, Card: "one", Rules: abs.NoRules(), Ann: abs.Ann{Query: true, QueryName: "query-q"}},
 				&abs.Field{Name: "rq", Num: 3, Kind: cc.Kind, Card: "one", Rules: abs.NoRules(), Ann: abs.Ann{Query: true, QueryReq: true}},
-				&abs.Field{Name: "rep", Num: 6, Kind: "string", Card: "rep", Rules: abs.NoRules(), Ann: abs.Ann{Query: true}},
+				// rep: a repeated parameter of the case's kind (several elements: element position must not matter)
+				&abs.Field{Name: "rep", Num: 6, Kind: cc.Kind, Card: "rep", Rules: abs.NoRules(), Ann: abs.Ann{Query: true}},
 				&abs.Field{Name: "oq", Num: 7, Kind: "int32", Card: "opt", Rules: abs.NoRules(), Ann: abs.Ann{Query: true}},
-				&abs.Field{Name: "rrep", Num: 8, Kind: "string", Card: "rep", Rules: abs.NoRules(), Ann: abs.Ann{Query: true, QueryReq: true}},
+				&abs.Field{Name: "rrep", Num: 8, Kind: "string", Card: "rep", Rules: abs.NoRules(), Ann: abs.Ann{Query: true, QueryName: "r_rep", QueryReq: true}},
 				&abs.Field{Name: "ropt", Num: 9, Kind: "int32", Card: "opt", Rules: abs.NoRules(), Ann: abs.Ann{Query: true, QueryReq: true}})
 		}
 		if bodyVerb(cc.Verb) {
@@ -255,8 +256,20 @@ func checkC01(c *chk.Ctx) {
 			set1("rq", cc.Qcls)
 			if cc.Qcls != "zero" {
 				l := m.Mutable(fds.ByName("rep")).List()
-				l.Append(protoreflect.ValueOfString("r1"))
-				l.Append(protoreflect.ValueOfString("r 2,x&y"))
+				texts := []string{}
+				for _, cl := range []string{"ord", cc.Qcls, "max", "ord"} {
+					if t, exists := classText(cc.Kind, cl); exists {
+						texts = append(texts, t)
+					}
+				}
+				if cc.Kind == "string" {
+					texts = append(texts, "r 2,x&y")
+				}
+				for _, t := range texts {
+					if v, err := parseScalarText(fds.ByName("rep"), t); err == nil {
+						l.Append(v)
+					}
+				}
 				m.Set(fds.ByName("oq"), protoreflect.ValueOfInt32(map[bool]int32{false: 7, true: 0}[cc.Qcls == "max"])) // max: set to 0, presence counts
 			}
 			// required parameters are always supplied (an absent one is the server's 400, not a call)
@@ -343,9 +356,9 @@ func checkC01(c *chk.Ctx) {
 			return out
 		}
 		fields := []string{"p", "q", "rq", "rep", "oq", "rrep", "ropt"}
-		pathVars, query := []string{"p"}, []map[string]any{{"field": "q", "name": "q", "required": false}, {"field": "rq", "name": "rq", "required": true},
+		pathVars, query := []string{"p"}, []map[string]any{{"field": "q", "name": "query-q", "required": false}, {"field": "rq", "name": "rq", "required": true},
 			{"field": "rep", "name": "rep", "required": false}, {"field": "oq", "name": "oq", "required": false},
-			{"field": "rrep", "name": "rrep", "required": true}, {"field": "ropt", "name": "ropt", "required": true}}
+			{"field": "rrep", "name": "r_rep", "required": true}, {"field": "ropt", "name": "ropt", "required": true}}
 		if p.cc.Route == "default" {
 			fields, pathVars, query = []string{}, []string{}, []map[string]any{}
 		}
@@ -393,21 +406,37 @@ func checkC01(c *chk.Ctx) {
 				}
 				queryVals := []map[string]string{}
 				q, _ := url.ParseQuery(fmt.Sprint(e["rawQuery"]))
+				// the URL carries the declared parameter names (two differ from the field names)
+				urlName := map[string]string{"q": "query-q", "rrep": "r_rep"}
 				for _, n := range []string{"q", "rq", "rep", "oq", "rrep", "ropt"} {
 					if p.cc.Route == "default" {
 						break
 					}
+					un := n
+					if a, ok := urlName[n]; ok {
+						un = a
+					}
 					if fd := md.Fields().ByName(protoreflect.Name(n)); fd != nil && fd.IsList() {
-						if vs, ok := q[n]; ok && len(vs) > 0 {
+						if vs, ok := q[un]; ok && len(vs) > 0 {
 							tmp := dynamicpb.NewMessage(md)
+							bad := false
 							for _, one := range vs {
-								tmp.Mutable(fd).List().Append(protoreflect.ValueOfString(one))
+								v, err := parseScalarText(fd, one)
+								if err != nil {
+									bad = true
+									break
+								}
+								tmp.Mutable(fd).List().Append(v)
 							}
-							queryVals = append(queryVals, map[string]string{"k": n, "v": val.Field(tmp, fd)})
+							if bad {
+								queryVals = append(queryVals, map[string]string{"k": n, "v": "?unparsable:" + strings.Join(vs, ",")})
+							} else {
+								queryVals = append(queryVals, map[string]string{"k": n, "v": val.Field(tmp, fd)})
+							}
 						}
 						continue
 					}
-					if vs, ok := q[n]; ok && len(vs) > 0 {
+					if vs, ok := q[un]; ok && len(vs) > 0 {
 						if v, err := parseScalarText(md.Fields().ByName(protoreflect.Name(n)), vs[0]); err == nil {
 							tmp := dynamicpb.NewMessage(md)
 							tmp.Set(md.Fields().ByName(protoreflect.Name(n)), v)
